@@ -15,7 +15,35 @@ def structured(r, max_tr=3, max_sg=3, layout=None, colons=True, canonical_tr=Fal
     return gen.render_desc(g, lay, r, canonical_tr=canonical_tr, colons=colons), lay, g
 
 
+PM_WORDS = ['5th P.M.', 'of the 5th P.M.', '6th Principal Meridian', 'P.M.', 'of the Fifth Principal Meridian', 'PM', 'W.M.', '5th p.m.',
+            'Principal Meridian']
+
+
+def meridian_text(r):
+    """one or several Twp/Rges (the same one twice, different ones, with and without a direction missing) shortly before a
+    principal-meridian designation: the P.M. scrubber rewrites the whole stretch, so a Twp/Rge found before preprocessing may be
+    gone afterwards"""
+    trs = []
+    for _ in range(r.range(1, 3)):
+        t, ns, rg, ew = r.choice([154, 7, 1]), r.choice('NS'), r.choice([97, 96, 3]), r.choice('EW')
+        trs.append(r.choice(gen.twprge_spellings(t, ns, rg, ew) + [f'T{t}-R{rg}{ew}', f'T{t}{ns}-R{rg}']))
+    if r.chance(1, 3):
+        trs.append(trs[0])
+    body = r.choice([' and ', ', ', ' & ', ' ', '; ']).join(trs)
+    return (r.choice(['', 'Lands in ', 'Sec 3: N/2, ']) + body + r.choice([', ', ' ', ' of the ', ', all in ', '\n']) + r.choice(PM_WORDS)
+            + r.choice([', Sec 14: NE/4', ' Sec 14: NE/4, Sec 15: W/2', '', ': Section 5', ', NE/4 of Sec 9']))
+
+
 def malformed(r):
+    if r.chance(1, 12):
+        return meridian_text(r)
+    if r.chance(1, 10):
+        # leftovers: a Twp/Rge or a section reference that nothing follows / precedes (unused_twprge / unused_sec flags)
+        t, _, _ = structured(r, 2, 2)
+        tr = r.choice(gen.twprge_spellings(r.choice([155, 2, 30]), r.choice('NS'), r.choice([96, 4]), r.choice('EW')))
+        sec = r.choice(['Sec 5', 'Section 30', 'Secs 1 - 3', '§ 9'])
+        sep = r.choice([', ', '\n', '; ', ' '])
+        return r.choice([t + sep + tr, tr + sep + t, t + sep + sec, sec + sep + t, t + sep + tr + sep + sec, tr + sep + tr + sep + t])
     k = r.below(8)
     if k == 0:
         return gen.token_soup(r)
